@@ -3,10 +3,10 @@ from .. import gen
 from . import common
 from .C04 import py_cmp, mutate, NAMES
 
-SPEC_THEOREM = 'Props/C14: refuted in general (two witness classes); restricted embedding outside the known classes'
+SPEC_THEOREM = 'Props/C14: refuted in general (witness classes); embedding proved on the class key_safe_doc, containers included (C14_container_keys_order_as_compare)'
 TRUSTED = ['Coq 8.16.1 kernel', 'translator (levels)', 'extraction + OCaml driver', 'Rust harness', 'model CmpKey.v (view-level mirror of convert_to_comparable)']
 ASSUMPTIONS = ['documents are canonical encodings of well-formed values']
-RULE = 'pairs as in C04 (mutations of a base document); the byte order of the two keys is compared with compare; pairs inside an open known-finding class are counted, not judged; non-trivial = keys differ'
+RULE = 'pairs as in C04 (mutations of a base document); the byte order of the two keys is compared with compare; pairs inside an open known-finding class are counted, not judged, EXCEPT pairs inside the proved class key_safe_doc (CmpKey.v), which are always judged; non-trivial = keys differ'
 
 
 def has_big_int(v):
@@ -28,6 +28,32 @@ def strings_of(v):
 def has_low_bytes(v):
     """a string or key containing a byte that can be taken for a depth marker (< 0x10 is ample for depth <= 15)"""
     return any(any(b < 0x10 for b in s) for s in strings_of(v))
+
+
+def num_exact(x):
+    """CmpKey.v num_key_exactb on the decoded number: every double (decoding makes any NaN the canonical one), and
+    every integer that a double represents exactly"""
+    if x[0] in 'iu':
+        return int(float(x[1])) == x[1]
+    return True
+
+
+def key_safe(d, v):
+    """CmpKey.v key_safe: the class on which Props/C14 C14_container_keys_order_as_compare is PROVED"""
+    k = v[0]
+    if k == 's':
+        return all(b > d for b in v[1])
+    if k in 'iud':
+        return num_exact(v)
+    if k == 'a':
+        return (not v[1] or d < 255) and all(key_safe(d + 1, x) for x in v[1])
+    if k == 'o':
+        return (not v[1] or d < 255) and all(all(b > d + 1 for b in kk) and key_safe(d + 1, x) for kk, x in v[1])
+    return True
+
+
+def key_safe_doc(v):
+    return True if v[0] == 's' else key_safe(0, v)
 
 
 def in_known_class(a, b):
@@ -81,8 +107,50 @@ def generate(ctx):
             ctx.pairs.append((a, b, ids))
 
 
+    # the bounds of the proved class key_safe_doc, from both sides (Props/C14 C14_marker_bounds_are_sharp): a string byte
+    # one above its depth marker / a key byte two above the depth of its object is inside (must agree); equal to the
+    # bound it is the open marker-collision finding.  Plus a pair decided three levels down after an equal prefix, and
+    # the deepest nesting the class admits (a non-empty container at depth 254).
+    def nest(n, v):
+        for _ in range(n):
+            v = ('a', [v])
+        return v
+    nul = ('n',)
+    bounds = [(('a', [('s', b'a'), nul]), ('a', [('s', b'a\x02\x06')])),
+              (('a', [('s', b'a'), nul]), ('a', [('s', b'a\x01\x06')])),
+              (('o', [(b'a', nul)]), ('o', [(b'a\x02\x06', nul)])),
+              (('o', [(b'a', nul)]), ('o', [(b'a\x01\x06', nul)])),
+              (nest(2, ('a', [('s', b'a'), nul])), nest(2, ('a', [('s', b'a\x04\x06')]))),
+              (nest(2, ('a', [('s', b'a'), nul])), nest(2, ('a', [('s', b'a\x03\x06')]))),
+              (('a', [('o', [(b'k', ('a', [('s', b'ab'), ('o', [(b'm', ('u', 1)), (b'n', ('s', b'x'))])]))]), ('s', b'z')]),
+               ('a', [('o', [(b'k', ('a', [('s', b'ab'), ('o', [(b'm', ('u', 1)), (b'n', ('s', b'xy'))])]))]), ('s', b'a')])),
+              (nest(254, ('a', [('a', []), ('a', [])])), nest(254, ('a', [('a', []), ('a', []), ('a', [])]))),
+              (nest(254, ('a', [('a', []), ('s', b'')])), nest(254, ('a', [('a', [])])))]
+    for x, y in bounds:
+        for a, b in ((x, y), (y, x)):
+            ea, eb = gen.hexarg(gen.enc(a)), gen.hexarg(gen.enc(b))
+            ids = (ctx.add('convert_to_comparable %s' % ea).id, ctx.add('convert_to_comparable %s' % eb).id,
+                   ctx.add('compare %s %s' % (ea, eb)).id)
+            ctx.pairs.append((a, b, ids))
+
+
 def judge(ctx):
     impl = ctx.impl
+    # the class is the one defined in Coq: the extracted CmpKey.key_safe_doc (on the decoded document) is asked about
+    # every generated document, and the Python mirror used below for counting and judging must agree with it
+    from .. import core
+    docs = {}
+    for a, b, _ in ctx.pairs:
+        for v in (a, b):
+            docs.setdefault(gen.hexarg(gen.enc(v)), v)
+    keys = sorted(docs)
+    out = core.run_cases(core.DRIVER_BIN, ['k%d key_safe_doc %s' % (i, h) for i, h in enumerate(keys)], ctx.pid + '-class')
+    for i, h in enumerate(keys):
+        want = 'ok =true' if key_safe_doc(docs[h]) else 'ok =false'
+        if out.get('k%d' % i, 'missing') != want:
+            ctx.violate('the judge\'s mirror of key_safe_doc disagrees with the extracted CmpKey.key_safe_doc',
+                        case=gen.vtext(docs[h]), expected_by_model=out.get('k%d' % i, 'missing'), observed=want)
+    ctx.count('documents_classified_by_the_extracted_key_safe_doc', None, len(keys))
     for a, b, ids in ctx.pairs:
         ka, kb, c = [impl.get(i, 'missing') for i in ids]
         if not (ka.startswith('ok ') and kb.startswith('ok ') and c.startswith('ok =')):
@@ -90,7 +158,17 @@ def judge(ctx):
             continue
         x, y = gen.unhexarg(ka[3:]), gen.unhexarg(kb[3:])
         kc = 'ok =' + NAMES[(x > y) - (x < y)]
-        if kc != c:
+        proved = key_safe_doc(a) and key_safe_doc(b)
+        ctx.count('pairs', 'inside the proved class key_safe_doc' if proved else 'outside (a number not exactly a double, or a string byte <= its depth marker)')
+        if proved:
+            ctx.count('pairs_inside_proved_class_by_outcome', c[4:])
+            if any(v[0] in 'ao' and v[1] for v in (a, b)):
+                ctx.count('pairs_inside_proved_class_with_a_nonempty_container')
+        if kc != c and proved:
+            # no known class can excuse a pair on which the embedding is a theorem of the model
+            ctx.violate('byte order of the comparable keys differs from compare INSIDE the proved class key_safe_doc',
+                        case=[gen.vtext(a), gen.vtext(b)], observed={'keys': [ka, kb], 'key_order': kc, 'compare': c})
+        elif kc != c:
             cls = in_known_class(a, b)
             if cls is None and (has_low_bytes(a) or has_low_bytes(b)) and kc == 'ok =eq' or cls is None and (has_low_bytes(a) or has_low_bytes(b)):
                 cls = 'comparable-key-marker-collision'
